@@ -3,6 +3,7 @@ package wirew
 import (
 	"bytes"
 	"context"
+	"errors"
 	"fmt"
 	"io"
 
@@ -514,8 +515,88 @@ func failedReplyBefore(res *world.Result) {
 	res.Count("c12.exchanges-after-a-reply-that-could-not-be-written", 1)
 }
 
+// nestedReplies: after a reply whose body failed to encode, a reply is written whose body,
+// while it is being encoded, answers another request on another connection. Both replies
+// must be what they are when written one after the other.
+func nestedReplies(res *world.Result, logf func(string, ...interface{})) bool {
+	if !simrt.Flip("cs.nested-replies", 0.1) {
+		return false
+	}
+	full := simio.Plan{TruncAt: -1, ErrAt: -1}
+	read := func() (request, stream.ResponseWriter) {
+		r := genRequest()
+		rd, _ := simio.NewReader(r.encode(), full)
+		o := readRequest(r.Type, rd, nil)
+		rw, _ := o.resp.(stream.ResponseWriter)
+		return r, rw
+	}
+	r0, rw0 := read()
+	if rw0 != nil {
+		guardReq(func() reqOutcome {
+			rw0.WriteResponse(wire.Reply, simio.NewWriter(-1), failingEnveloper{})
+			return reqOutcome{}
+		})
+	}
+	_ = r0
+	outer, rwOuter := read()
+	inner, rwInner := read()
+	if rwOuter == nil || rwInner == nil {
+		return true
+	}
+	bOuter := genVal(ref.TStruct, 0, genOpts{maxDepth: 1})
+	bInner := genVal(ref.TStruct, 0, genOpts{maxDepth: 1})
+	wOuter, wInner := simio.NewWriter(-1), simio.NewWriter(-1)
+	var innerErr error
+	o := guardReq(func() reqOutcome {
+		err := rwOuter.WriteResponse(wire.Reply, wOuter, &nestingEnveloper{genericEnveloper{Body: bOuter}, func() {
+			innerErr = rwInner.WriteResponse(wire.Reply, wInner, &genericEnveloper{Body: bInner})
+		}})
+		if err != nil {
+			return reqOutcome{err: err.Error()}
+		}
+		return reqOutcome{ok: true}
+	})
+	res.Count("c12.replies-written-while-another-reply-is-being-encoded", 1)
+	logf("nested replies: outer %s, inner %s -> %s, inner error %v", outer, inner, o, innerErr)
+	if o.panic != "" {
+		res.Failf("C12/panic", "writing a reply while another one is being encoded panicked: %s", o.panic)
+		return true
+	}
+	if !o.ok || innerErr != nil {
+		res.Failf("C12/reply-write", "writing a reply while another one is being encoded failed: outer %s, inner %v", o, innerErr)
+		return true
+	}
+	checkReply(res, "outer reply (another reply was written while its body was encoded)", outer, wOuter.Buf, 2, bOuter)
+	checkReply(res, "inner reply (written while another reply's body was encoded)", inner, wInner.Buf, 2, bInner)
+	return true
+}
+
+// failingEnveloper is a reply whose body cannot be encoded.
+type failingEnveloper struct{}
+
+func (failingEnveloper) MethodName() string              { return "f" }
+func (failingEnveloper) EnvelopeType() wire.EnvelopeType { return wire.Reply }
+func (failingEnveloper) Encode(sw stream.Writer) error {
+	sw.WriteStructBegin()
+	return errors.New("the reply's body does not encode")
+}
+
+// nestingEnveloper runs `during` in the middle of encoding its body.
+type nestingEnveloper struct {
+	genericEnveloper
+	during func()
+}
+
+func (n *nestingEnveloper) Encode(sw stream.Writer) error {
+	n.during()
+	return n.genericEnveloper.Encode(sw)
+}
+
 func c12ClientServer(res *world.Result, logf func(string, ...interface{}), h *world.Hasher, overPipe bool) {
 	failedReplyBefore(res)
+	if !overPipe && nestedReplies(res, logf) {
+		return
+	}
 	req := genRequest()
 	// the server's expectation: mostly the request's own type
 	et := req.Type
